@@ -1239,11 +1239,82 @@ def check_ltl_front_end(ix, rep, grammars, rule='R-GRAM'):
         if arm is None:
             continue
         built_stl = _built_classes(ast.Module(body=list(arm), type_ignores=[]))
+        # the tree returned without an interval, as a constructor term: the same tree however the statements are arranged
+        ts, tl = _return_term(fs.node, True), _return_term(fl.node, True)
+        if ts is not None and tl is not None and built_stl != built_ltl:
+            if ts == tl:
+                rep.ok(rule, fs.module.rel, fs.qual, 'untimed=%s' % name, 'without interval returns the tree %s like the LTL front end' % (_show_term(ts),), fs.node.lineno)
+            else:
+                rep.fail(rule, fs.module.rel, fs.qual, 'untimed=%s' % name, 'without interval the STL builder returns %s, the LTL builder %s' % (_show_term(ts), _show_term(tl)), fs.node.lineno)
+            continue
         if built_stl == built_ltl:
             rep.ok(rule, fs.module.rel, fs.qual, 'untimed=%s' % name, 'without interval builds %s like the LTL front end' % built_ltl, fs.node.lineno)
         else:
             rep.fail(rule, fs.module.rel, fs.qual, 'untimed=%s' % name, 'without interval the STL builder constructs %s, the LTL builder %s' % (built_stl, built_ltl), fs.node.lineno)
     return n
+
+
+def _show_term(t):
+    if isinstance(t, tuple) and t and t[0] == 'build':
+        return '%s(%s)' % (t[1], ', '.join(_show_term(a) for a in t[2]))
+    if isinstance(t, tuple) and t and t[0] == 'child':
+        return 'child%d' % t[1]
+    return str(t[1]) if isinstance(t, tuple) and len(t) > 1 else str(t)
+
+
+def _return_term(fnode, interval_none):
+    """the value a builder method returns on the path on which ctx.interval() is None (interval_none) / is present, as a term over
+    ('child', k) = self.visit(ctx.expression(k)) and ('build', Class, args); None when a statement is not interpreted"""
+    ctxp = fnode.args.args[1].arg
+    env = {}
+
+    def term(e):
+        if isinstance(e, ast.Name) and e.id in env:
+            return env[e.id]
+        if isinstance(e, ast.Call) and isinstance(e.func, ast.Attribute) and e.func.attr == 'visit' and isinstance(e.func.value, ast.Name) and e.func.value.id == 'self' \
+                and len(e.args) == 1 and isinstance(e.args[0], ast.Call) and isinstance(e.args[0].func, ast.Attribute) and isinstance(e.args[0].func.value, ast.Name) \
+                and e.args[0].func.value.id == ctxp:
+            acc = e.args[0]
+            if acc.func.attr == 'expression':
+                k = acc.args[0].value if acc.args and isinstance(acc.args[0], ast.Constant) else 0
+                return ('child', k)
+            return ('visit', acc.func.attr)
+        if isinstance(e, ast.Call) and isinstance(e.func, ast.Name) and e.func.id[:1].isupper() and not e.keywords:
+            return ('build', e.func.id, tuple(term(a) for a in e.args))
+        return ('?', ast.unparse(e).replace(' ', ''))
+
+    def run(stmts):
+        for st in stmts:
+            if isinstance(st, ast.Expr):
+                continue
+            if isinstance(st, ast.Assign) and len(st.targets) == 1 and isinstance(st.targets[0], ast.Name):
+                env[st.targets[0].id] = term(st.value)
+                continue
+            if isinstance(st, ast.Assign) and len(st.targets) == 1 and isinstance(st.targets[0], ast.Tuple) and isinstance(st.value, ast.Tuple) \
+                    and len(st.targets[0].elts) == len(st.value.elts) and all(isinstance(t, ast.Name) for t in st.targets[0].elts):
+                vals = [term(v) for v in st.value.elts]
+                for t, v in zip(st.targets[0].elts, vals):
+                    env[t.id] = v
+                continue
+            if isinstance(st, ast.Assign):
+                continue        # stores into tables (registration): judged by R-NAMES
+            if isinstance(st, ast.If):
+                r = _none_test(st.test, '%s.interval()' % ctxp)
+                if r is None:
+                    return ('stop',)
+                none_arm, some_arm = (st.body, st.orelse) if r == 'none-in-body' else (st.orelse, st.body)
+                out = run(none_arm if interval_none else some_arm)
+                if out is not None:
+                    return out
+                continue
+            if isinstance(st, ast.Return):
+                return ('ret', term(st.value) if st.value is not None else None)
+            return ('stop',)
+        return None
+    out = run(fnode.body)
+    if out is None or out[0] != 'ret':
+        return None
+    return out[1]
 
 
 def _built_classes(node):
